@@ -1,5 +1,6 @@
 import KoordVerif.Model.C12
 import KoordVerif.Model.C12Static
+import KoordVerif.Model.C12Kind
 import KoordVerif.Generated.C12
 /-
 Tie lemmas for C12: facts regenerated from /repo's current resourceexecutor sources equal what the
@@ -94,5 +95,53 @@ theorem tie_static_policy_sweeps :
     C12.maxDepthCmp = "<=" ∧ C12.targetDepthCmp = "==" := by decide
 
 theorem tie_depths : C12.podDepthConst = (podDepth : Int) ∧ C12.ctrDepthConst = (ctrDepth : Int) := by decide
+
+/-! ### the kind of the updaters the real callers hand to LeveledUpdateBatch (Model/C12Kind.lean) -/
+
+/-- exactly three functions outside resourceexecutor call LeveledUpdateBatch; their levels are [pods, containers]
+    (filled only from GetUpdaters() of a PodContext / a ContainerContext; local names erased) resp. the three results
+    of calculateResources in order ([qos, pods, containers]).
+    A new caller, another level order or another source of updaters has to be examined. -/
+theorem tie_leveled_callers :
+    C12.leveledCallers =
+      [("pkg/koordlet/qosmanager/plugins/cgreconcile:calculateAndUpdateResources",
+        "calculateResources#0,calculateResources#1,calculateResources#2"),
+       ("pkg/koordlet/runtimehooks/hooks/batchresource:ruleUpdateCbForNodeMeta",
+        "PodContext.GetUpdaters,ContainerContext.GetUpdaters"),
+       ("pkg/koordlet/runtimehooks/hooks/cpunormalization:ruleUpdateCb",
+        "PodContext.GetUpdaters,ContainerContext.GetUpdaters")] := by
+  decide
+
+/-- is the updater a protocol.go inject helper builds mergeable?  `factory:<res>` = the registry entry of <res>. -/
+def injectMergeable (helper : String) : Option Bool :=
+  match C12.injectCtors.lookup helper with
+  | some "factory:CPUCFSQuotaName" => ((C12.registry.lookup "CPUCFSQuotaName").bind ctorMeaning).map (·.1)
+  | some "factory:CPUSetCPUSName" => ((C12.registry.lookup "CPUSetCPUSName").bind ctorMeaning).map (·.1)
+  | some "factory:MemoryLimitName" => ((C12.registry.lookup "MemoryLimitName").bind ctorMeaning).map (·.1)
+  | some c => (ctorMeaning c).map (·.1)
+  | none => none
+
+/-- **tie_leveled_call_sites**: every updater of a hierarchical resource that reaches LeveledUpdateBatch is built by a
+    mergeable constructor — the `AllMergeable` hypothesis of leveled_batch_valid_needs_mergeable:
+    * rule callbacks (batchresource, cpunormalization): the contexts build the cfs-quota updater with injectCPUQuota
+      and the cpuset updater with injectCPUSet, both through DefaultCgroupUpdaterFactory.New on a resource registered
+      mergeable (memory.limit_in_bytes, injectMemoryLimit, is registered NOT mergeable: not a hierarchical rewrite of
+      the property, written exactly in the top-down sweep);
+    * cgreconcile makeCgroupResources: the rows memory.min / memory.low / memory.high are marked mergeable, the
+      constructor is chosen by `t.isMergeable` ALONE (no condition on the value) and is the mergeable one. -/
+theorem tie_leveled_call_sites :
+    C12.responseInjects.lookup "PodContext.CFSQuota" = some "injectCPUQuota" ∧
+    C12.responseInjects.lookup "ContainerContext.CFSQuota" = some "injectCPUQuota" ∧
+    injectMergeable "injectCPUQuota" = some true ∧
+    injectMergeable "injectCPUSet" = some true ∧
+    injectMergeable "injectMemoryLimit" = some false ∧
+    C12.cgrKindCond = "isMergeable" ∧
+    C12.cgrThenCtor = "NewMergeableCgroupUpdaterIfValueLarger" ∧
+    C12.cgrElseCtor = "NewCommonCgroupUpdater" ∧
+    (ctorMeaning C12.cgrThenCtor).map (·.1) = some true ∧
+    ["MemoryMinName", "MemoryLowName", "MemoryHighName"].map (fun n => List.lookup n C12.cgrTable) =
+      [some true, some true, some true] := by
+  decide
+
 
 end KoordVerif.C12
